@@ -197,7 +197,14 @@ fn wire_deadline(codec: &Cd, f: &[u8]) -> Option<(u64, u64)> {
     }
 }
 
-const NO_DEADLINE_JSON: &str = r#"{"Request":{"context":{"trace_context":{"trace_id":[9,0,0,0,0,0,0,0,0,0,0,0,0,0,0,0],"span_id":4,"sampling_decision":"Sampled"}},"id":4000000000,"message":"injected"}}"#;
+/// a hand-written request with NO deadline member; ids are distinct from the clients' (which count from 0)
+fn no_deadline_json(n: u64) -> Vec<u8> {
+    format!(
+        r#"{{"Request":{{"context":{{"trace_context":{{"trace_id":[9,0,0,0,0,0,0,0,0,0,0,0,0,0,0,0],"span_id":4,"sampling_decision":"Sampled"}}}},"id":{},"message":"injected"}}}}"#,
+        4_000_000_000u64 + n
+    )
+    .into_bytes()
+}
 
 fn run_impl(s: &Script) -> (Vec<Vec<String>>, Vec<String>) {
     vclock::reset();
@@ -216,6 +223,7 @@ fn run_impl(s: &Script) -> (Vec<Vec<String>>, Vec<String>) {
     let seen: Rc<RefCell<Vec<(usize, i128)>>> = Rc::new(RefCell::new(vec![]));
     let mut handlers: Vec<Fut> = vec![];
     let mut root_calls: Vec<Fut> = vec![];
+    let mut injected = 0u64;
     let mut obs: Vec<Vec<String>> = vec![];
     let mut tags: Vec<String> = vec![];
     let use_cur = s.cur && s.otel;
@@ -256,7 +264,8 @@ fn run_impl(s: &Script) -> (Vec<Vec<String>>, Vec<String>) {
                 }
                 Tok::Inject(k) => {
                     if s.codec == Cd::Json && *k >= 1 && *k <= links.len() && !links[*k - 1].delivered {
-                        links[*k - 1].in_transit.push(NO_DEADLINE_JSON.as_bytes().to_vec());
+                        injected += 1;
+                        links[*k - 1].in_transit.push(no_deadline_json(injected));
                     }
                 }
                 Tok::Recv(k) => {
